@@ -231,8 +231,71 @@ def split_tuple_lets(body):
     return n
 
 
+def inline_local_closures(fn, counter):
+    """D5  `let f = |p| body; .. f(a) ..`  ->  `.. { let p = a; body } ..` when every use of `f` is a direct call
+    (the closure is a local function; captured variables keep their identity because ids are per function)."""
+    from . import inline as _inl
+    body = fn.get("body")
+    n = 0
+    for b in list(_walk(body)):
+        if b.get("k") != "block":
+            continue
+        for s in list(b["stmts"]):
+            if not (s.get("k") == "let" and s.get("init") is not None and s.get("els") is None and s["pat"].get("k") == "bind"
+                    and "Mut)" not in str(s["pat"].get("mode"))):
+                continue
+            init = s["init"]
+            while init.get("k") == "blk" and not init["b"]["stmts"] and init["b"]["tail"] is not None:
+                init = init["b"]["tail"]
+            if init.get("k") != "closure":
+                continue
+            hid = s["pat"]["hid"]
+            uses = [x for x in _walk(fn["body"]) if x.get("k") == "local" and x.get("hid") == hid]
+            callsites = [x for x in _walk(fn["body"]) if x.get("k") == "call" and isinstance(x.get("f"), dict) and x["f"].get("k") == "local" and x["f"].get("hid") == hid]
+            if not uses or len(uses) != len(callsites):
+                continue
+            if any(y.get("k") == "ret" for y in _walk(init["body"])):
+                continue
+            helper = {"params": init["params"], "body": init["body"], "path": "closure:" + str(s["pat"].get("name"))}
+            ok = True
+
+            def rewrite(x):
+                nonlocal ok
+                if isinstance(x, list):
+                    return [rewrite(v) for v in x]
+                if not isinstance(x, dict):
+                    return x
+                for k_, v in list(x.items()):
+                    if isinstance(v, (dict, list)):
+                        x[k_] = rewrite(v)
+                if x.get("k") == "call" and isinstance(x.get("f"), dict) and x["f"].get("k") == "local" and x["f"].get("hid") == hid:
+                    counter[0] += 1
+                    e = _inl._expand(x, helper, 4000 + counter[0])
+                    if e is None:
+                        ok = False
+                        return x
+                    return e
+                return x
+            saved = copy.deepcopy(fn["body"])
+            fn["body"] = rewrite(fn["body"])
+            if not ok:
+                fn["body"] = saved
+                return n
+            # drop the `let f = ..` (the block objects were rewritten in place: find it again)
+            for b2 in _walk(fn["body"]):
+                if b2.get("k") == "block":
+                    b2["stmts"] = [t for t in b2["stmts"] if not (t.get("k") == "let" and t.get("pat", {}).get("k") == "bind" and t["pat"].get("hid") == hid
+                                                                  and t.get("init") is not None and any(y.get("k") == "closure" for y in _walk(t["init"])) )]
+            n += 1
+    return n
+
+
+_CTR = [0]
+
+
 def run(facts):
-    counts = {"debug_asserts": 0, "let_else": 0, "destructured": 0}
+    counts = {"debug_asserts": 0, "let_else": 0, "destructured": 0, "local_closures": 0}
+    ctr = _CTR
     for fn in facts["fns"].values():
         if fn.get("body") is None:
             continue
@@ -240,5 +303,6 @@ def run(facts):
         counts["let_else"] += let_else_to_match(fn["body"])
         counts["split_tuple_lets"] = counts.get("split_tuple_lets", 0) + split_tuple_lets(fn["body"])
         counts["destructured"] += destructure_subst(fn, facts["types"])
+        counts["local_closures"] += inline_local_closures(fn, ctr)
     facts["_desugared"] = counts
     return counts
